@@ -14,7 +14,7 @@
                "slots":[[ti,tf,[targets]],…],"init":[…],
                "pad":{"ok":b,"len":n,"cell":{"amp":[…],"det":[…],"detc":"p/q","phase":slot|null}}},…],
      "mask":{"targets":[…],"end":n},
-     "nested":{"false":{"raises":b,"instrs":[…]},"true":{…}}}
+     "nested":{"false":{"instrs":[…]},"true":{…}}}
   A segment says: for t in [t0,t1) the amplitude (resp. detuning) sample is the sum of
   sample `off0 + (t - t0)` of the pulse of instruction `slot`, over the listed terms.
 -/
@@ -136,8 +136,7 @@ def showInstr : NInstr → String
   | .touch b q => jList [jStr "touch", jStr (showBasis b), toString q]
 
 def renderNested (allLocal : Bool) (m : SlmMask) (views : List ChanView) : String :=
-  jObj [("raises", jBool (nestedRaises allLocal m views)),
-        ("instrs", jList ((nestedInstrs allLocal m views).map showInstr))]
+  jObj [("instrs", jList ((nestedInstrs allLocal m views).map showInstr))]
 
 /-- Rendering of the whole sequence; `ws` are the per-qubit weights of the DMM channels,
 `maskTargets` the SLM-mask targets. -/
